@@ -12,7 +12,7 @@ import json
 
 from .core import Ambiguous, cmeta, tag
 
-SIZES = (1, 2, 3, 4, 5, 6)
+SIZES = (0, 1, 2, 3, 4, 5, 6)
 WINDOWS = [(a, b) for a in range(0, 8) for b in range(a, 8)]
 
 
@@ -145,7 +145,9 @@ class Model:
                 raise Ambiguous("directed keep_edges")
             for k in inc:
                 nk = self.shrink_key(k, n)
-                if len(self.knodes(nk)) == 0:
+                if len(self.knodes(nk)) == 0 and self.kind != "H":
+                    # Temporal / Multiplex drop the emptied record, Hypergraph keeps the empty node set as a hyperedge:
+                    # for the plain Hypergraph the abstract map simply contains the empty set (size 0, order -1)
                     raise Ambiguous("shrunk hyperedge becomes empty")
             # sequential semantics: record by record
             for k in sorted(inc, key=lambda q: sorted(tag(x) for x in self.knodes(q))):
